@@ -201,6 +201,9 @@ def incoh_case(case, res):
     configs = [("1MHz", 400 * u.MHz, None)]
     if cls in ("RadioSignal", "IntensitySignal", "FullStokesSignal"):
         configs.append(("1kHz", 1.4 * u.GHz, 10 * u.MHz))
+        if nchan % 2 == 0:
+            # a band that straddles 0 Hz (labels of either sign): f^-2 is not monotonic across it, the earliest channel is an inner one
+            configs.append(("1kHz", 0 * u.MHz, 100 * u.MHz))
     for rate, fc, cbw in configs:
         z = factory.make_encoded(cls, N, nchan=nchan, extra=extra, rate_name=rate, start_name=case["start"], fc=fc,
                                  align=case["align"], chan_bw=cbw)
@@ -212,9 +215,20 @@ def incoh_case(case, res):
         refs = [("none", None), ("center", z.center_freq), ("bottom", z.min_freq), ("top", z.max_freq),
                 ("above", z.max_freq + 2 * z.chan_bw), ("below", z.min_freq - 3 * z.chan_bw),
                 ("label", z.channel_freqs[min(1, nchan - 1)]), ("inf", np.inf * u.MHz)]
+        straddle = hz(fc) == 0
+        if straddle and any(lab == 0 for lab in labels):
+            continue                                      # (a channel at 0 Hz has no finite delay)
         for refname, ref in refs:
             refx = hz(z.center_freq) if ref is None else (None if refname == "inf" else hz(ref))
+            if straddle and refx == 0:
+                continue                                  # (a reference of 0 Hz has no finite delay)
             unit_sweep = dispersion.delay_samples(1, fmin, refx, srx) - dispersion.delay_samples(1, fmax, refx, srx)
+            if straddle:
+                ds_ = [dispersion.delay_samples(1, lab, refx, srx) for lab in labels]
+                unit_sweep = max(ds_) - min(ds_)
+                if unit_sweep == 0:
+                    continue
+                res.hits["band straddling 0 Hz"] += 1
             for sweep in (0.0, 0.4, -0.4, 2.3, -2.3, N - 0.5, -(N - 0.5), N + 2.3, -(N + 2.3), 3 * N + 0.7, 1.0):
                 dmv = float(F(sweep) / unit_sweep)
                 dm = pb.DM(dmv)
@@ -398,7 +412,7 @@ def check_case(case):
 def main(argv=None):
     return report.run_check(
         PID, gen_cases=gen_cases, check_case=check_case, describe=describe,
-        required_hits=["buffer overwritten between calls", "delay law triples", "infinite reference frequency", "frequencies in integer containers", "DM in a non-default unit", "negative DM", "every returned sample traced",
+        required_hits=["buffer overwritten between calls", "delay law triples", "infinite reference frequency", "frequencies in integer containers", "band straddling 0 Hz", "DM in a non-default unit", "negative DM", "every returned sample traced",
                        "start_time moved", "no start time (relative alignment only)",
                        "channels realigned by different delays", "delays of both signs (reference inside band)",
                        "all delays one sign (reference outside band)", "no valid instant in span: empty signal", "dask-backed input with unequal channel chunks", "DM object updated in place", "sample_rate assigned between dedispersions", "user-defined subclass kept"],
